@@ -9,3 +9,31 @@ Open Scope string_scope. Open Scope list_scope.
 
 Lemma tie_protocol_mismatch : protocol_mismatch_text = str_bytes src_protocol_mismatch_text.
 Proof. reflexivity. Qed.
+
+(* audit(): the decisions on the first packet as they read now (T1c translation): the automatic SSH-1 retry after the protocol-mismatch text, and which message
+   type is an error for which protocol version; the model's classify takes exactly those branches *)
+Lemma tie_ssh1_retry : forall e sshv a,
+  (zs_eqb e protocol_mismatch_text && (sshv =? 2)%Z && a) = src_ssh1_retry (zs_eqb e protocol_mismatch_text) sshv a.
+Proof. intros. unfold src_ssh1_retry. rewrite andb_assoc. reflexivity. Qed.
+Lemma tie_classify_error_packet : forall sshv a e,
+  classify sshv a (PktErr e) = if src_ssh1_retry (zs_eqb e protocol_mismatch_text) sshv a then ApFallbackSsh1 else ApExit1.
+Proof. intros. cbn [classify]. rewrite tie_ssh1_retry. reflexivity. Qed.
+Lemma tie_classify_wrong_type : forall sshv a t payload, (sshv = 1 \/ sshv = 2)%Z ->
+  src_first_packet_wrong_type sshv t = true -> classify sshv a (PktOk t payload) = ApExit1.
+Proof.
+  intros sshv a t payload Hv H. unfold src_first_packet_wrong_type in H. cbv zeta in H. cbn [classify].
+  destruct Hv as [-> | ->]; cbn [Z.eqb Pos.eqb andb] in *.
+  - destruct (negb (t =? proto_SMSG_PUBLIC_KEY)%Z); [reflexivity|discriminate].
+  - destruct (negb (t =? proto_MSG_KEXINIT)%Z); [reflexivity|discriminate].
+Qed.
+Lemma tie_classify_right_type : forall sshv a t payload, (sshv = 1 \/ sshv = 2)%Z ->
+  src_first_packet_wrong_type sshv t = false ->
+  classify sshv a (PktOk t payload) =
+  if (sshv =? 1)%Z then match parse_pkm payload with Ok (m, _) => ApPkm m | Raise _ => ApExit1 end
+  else match parse_kexinit payload with Ok (k, _) => ApKex k | Raise _ => ApExit1 end.
+Proof.
+  intros sshv a t payload Hv H. unfold src_first_packet_wrong_type in H. cbv zeta in H. cbn [classify].
+  destruct Hv as [-> | ->]; cbn [Z.eqb Pos.eqb andb] in *.
+  - destruct (negb (t =? proto_SMSG_PUBLIC_KEY)%Z); [discriminate|reflexivity].
+  - destruct (negb (t =? proto_MSG_KEXINIT)%Z); [discriminate|reflexivity].
+Qed.
